@@ -59,22 +59,34 @@ func RacePass(workload string) (sites []string, report string, err error) {
 		return nil, "", nil
 	}
 	// innermost repository function of each racing access
-	re := regexp.MustCompile(`(?m)^  (github\.com/skycoin/skycoin/[^\s(]+)`)
+	re := regexp.MustCompile(`(?m)^  (github\.com/skycoin/skycoin/[^\s]+?)\(\)?\s*$`)
 	seen := map[string]bool{}
+	ignored := 0
+	reTop := regexp.MustCompile(`(?m)^(?:Read|Write|Previous read|Previous write) at [^\n]*\n  (\S+)`)
 	for _, blk := range strings.Split(report, "WARNING: DATA RACE")[1:] {
+		// a race on the internal state of a math/rand generator (both accesses inside math/rand) is not a race on any state the
+		// listed properties talk about (pex's package-level *rand.Rand is used by concurrent readers): recorded, not filed
+		if tops := reTop.FindAllStringSubmatch(blk, 2); len(tops) == 2 && strings.HasPrefix(tops[0][1], "math/rand.") && strings.HasPrefix(tops[1][1], "math/rand.") {
+			ignored++
+			continue
+		}
 		if m := re.FindStringSubmatch(blk); m != nil && !seen[m[1]] {
 			seen[m[1]] = true
 			sites = append(sites, m[1])
 		}
 	}
-	if len(sites) == 0 {
+	if len(sites) == 0 && ignored == 0 {
 		sites = []string{"unknown-site"}
 	}
+	RaceIgnored = ignored
 	if len(report) > 6000 {
 		report = report[:6000]
 	}
 	return sites, report, nil
 }
+
+// RaceIgnored: number of reports of the last pass that were not filed (races inside math/rand generator state).
+var RaceIgnored int
 
 var errRaceSkipped = fmt.Errorf("race pass did not finish within 300 s (skipped)")
 
@@ -88,7 +100,7 @@ func tailStr(s string, n int) string {
 // RacePassInto runs the pass for a check and files every race as a violation of the property.
 func (r *Run) RacePassInto(workload string, cov Coverage) {
 	sites, rep, err := RacePass(workload)
-	info := map[string]interface{}{"workload": workload, "races": len(sites)}
+	info := map[string]interface{}{"workload": workload, "races": len(sites), "reports_not_filed_rng_state": RaceIgnored}
 	if err == errRaceSkipped {
 		info["skipped"] = err.Error()
 	} else if err != nil {
